@@ -159,6 +159,17 @@ let parse_log (s : string) : (int * string) list =
 
 let int_field s k = try int_of_string (field s k) with _ -> 0
 
+(* "3{0:1,1:1,3:0}" -> [("0", true); ("1", true); ("3", false)] *)
+let conf_members (c : string) : (string * bool) list =
+  match String.index_opt c '{' with
+  | None -> []
+  | Some i ->
+      let body = String.sub c (i + 1) (String.length c - i - 2) in
+      if body = "" then [] else
+        List.filter_map (fun kv -> match String.split_on_char ':' kv with
+            | [k; v] -> Some (k, v = "1") | _ -> None) (String.split_on_char ',' body)
+let conf_voters c = List.filter_map (fun (k, v) -> if v then Some k else None) (conf_members c)
+
 let monitor_obs (m : mon) (o : obs) =
   let up = List.filter (fun (_, s) -> s <> "down" && s <> "frozen") o.nodes in
   (* C02: one leader per term *)
@@ -260,6 +271,41 @@ let monitor_obs (m : mon) (o : obs) =
               | Some e' -> violate m "C07" (Printf.sprintf "leader %s of term %s has %s at committed index %d (committed: %s)" id (field s "term") e' i e)
               | None -> violate m "C07" (Printf.sprintf "leader %s of term %s lacks committed index %d (%s)" id (field s "term") i e)) m.committed
       end) up;
+  (* C09: a node becomes leader of term T only with the real votes of a majority of the voters of its
+     configuration (itself included only if it is a voter) *)
+  List.iter (fun (id, s) ->
+      let t = int_field s "term" in
+      let key = Printf.sprintf "elected/%s/%d" id t in
+      if field s "role" = "L" && not (Hashtbl.mem m.votes key) then begin
+        Hashtbl.replace m.votes key "1";
+        let vs = conf_voters (field s "conf") in
+        let support = List.filter (fun v -> Hashtbl.find_opt m.votes (Printf.sprintf "vote-of/%s/%d" v t) = Some id) vs in
+        if 2 * List.length support <= List.length vs then
+          violate m "C09" (Printf.sprintf "node %s leads term %d with the votes of %d of the %d voters of its configuration %s (voters for it: %s)"
+                             id t (List.length support) (List.length vs) (field s "conf") (String.concat "," support))
+      end) up;
+  (* C09: a leader advances its commit index to an entry of its term only when a majority of the VOTERS
+     of its configuration hold that entry on disk (the leader counts itself only if it is a voter) *)
+  List.iter (fun (id, s) ->
+      if field s "role" = "L" then begin
+        let t = field s "term" and c = int_field s "commit" in
+        let key = "commit-seen/" ^ id ^ "/" ^ t in
+        let before = try int_of_string (Hashtbl.find m.votes key) with Not_found -> -1 in
+        if c > before then begin
+          Hashtbl.replace m.votes key (string_of_int c);
+          (match List.assoc_opt c (List.assoc id logs) with
+           | Some e when before >= 0 && List.hd (String.split_on_char ':' e) = t ->
+               let vs = conf_voters (field s "conf") in
+               let holders = List.filter (fun v ->
+                   match Hashtbl.find_opt m.lastlog v with
+                   | Some l -> List.assoc_opt c (parse_log l) = Some e
+                   | None -> false) vs in
+               if 2 * List.length holders <= List.length vs then
+                 violate m "C09" (Printf.sprintf "leader %s of term %s committed index %d (%s) held by %d of the %d voters of %s (holders: %s)"
+                                    id t c e (List.length holders) (List.length vs) (field s "conf") (String.concat "," holders))
+           | _ -> ())
+        end
+      end) up;
   (* C10: every FSM holds a prefix of the committed operation sequence *)
   let ops = Hashtbl.fold (fun i e acc -> (i, e) :: acc) m.committed [] |> List.sort compare
             |> List.filter_map (fun (_, e) -> match String.split_on_char ':' e with
@@ -303,6 +349,27 @@ let monitor_obs (m : mon) (o : obs) =
             if 2 * holders <= m.voters then
               violate m "C04" (Printf.sprintf "future %d acknowledged index %d with the entry in %d of %d logs" fid i holders m.voters)
           end
+      | "Conf" :: _ ->
+          (* C09: a membership future that succeeds reports a committed configuration containing the change *)
+          let c = String.sub res 5 (String.length res - 5) in
+          (match Hashtbl.find_opt m.votes (Printf.sprintf "confreq/%d" fid) with
+           | Some req ->
+               let ms = conf_members c in
+               (match String.split_on_char ' ' req with
+                | ["ADD"; id; v] ->
+                    if List.assoc_opt id ms <> Some (v = "1") then
+                      violate m "C09" (Printf.sprintf "future %d (add %s voter=%s at node %s) succeeded with configuration %s" fid id v node c)
+                | ["REMOVE"; id] ->
+                    if List.mem_assoc id ms then
+                      violate m "C09" (Printf.sprintf "future %d (remove %s at node %s) succeeded with configuration %s" fid id node c)
+                | _ -> ());
+               let idx = try int_of_string (String.sub c 0 (String.index c '{')) with _ -> -1 in
+               (match Hashtbl.find_opt m.committed idx with
+                | Some e when (match String.index_opt e ':' with
+                               | Some i -> String.sub e (i + 1) (String.length e - i - 1) = "c" ^ c | None -> false) -> ()
+                | Some e -> violate m "C09" (Printf.sprintf "future %d reports configuration %s but index %d is committed as %s" fid c idx e)
+                | None -> violate m "C09" (Printf.sprintf "future %d reports configuration %s which no node has committed" fid c))
+           | None -> ())
       | ["Read"; _; r] ->
           let r = int_of_string r in
           (match Hashtbl.find_opt m.submitted fid with
@@ -373,6 +440,8 @@ type tstate = {
   mutable seen_results : (int * string) list;
   mutable waiting : (int * string) list;   (* impl calls whose handler is parked, with destination *)
   mutable diverged : bool;
+  mutable prev : (world * label) option;   (* state before the last harness label, and that label *)
+  mutable quiet : bool;                    (* dry run: record divergence, report nothing *)
 }
 
 let mismatches = ref 0
@@ -380,6 +449,60 @@ let traces = ref 0
 let steps = ref 0
 let out_lines : string list ref = ref []
 let say s = out_lines := s :: !out_lines
+
+(* ---- schedules of the goroutines woken by one harness label ----
+   [macro] (Coq: settle) runs them in one fixed order: spawned goroutines first (in spawn order), then
+   electionLoop, commitLoop, applyLoop, readOnlyLoop.  The Go scheduler may pick any order; the model's
+   [step] has one label per goroutine (LTask, LDefer, LElectionRun, LCommit, LApply, LRo), and every
+   theorem quantifies over all label sequences.  When the default order does not reproduce what the
+   implementation shows, other orders are tried: every priority order of the five classes with the spawned
+   goroutines in FIFO or LIFO order, then pseudo-random orders.  The implementation's observation is a
+   mismatch only if no schedule tried reproduces it. *)
+let schedules_tried = ref 0
+let schedules_needed = ref 0
+
+let enabled_classes (m : node) : int list =
+  if not (is_up m) then [] else
+  (if m.n_tasks <> [] then [0] else [])
+  @ (if m.n_cv.cv_election then [1] else [])
+  @ (if m.n_cv.cv_commit then [2] else [])
+  @ (if m.n_cv.cv_apply then [3] else [])
+  @ (if m.n_cv.cv_ro then [4] else [])
+
+let class_labels (m : node) (cls : int) (task : int) : label list =
+  match cls with
+  | 0 -> List.init task (fun _ -> LDefer m.n_id) @ [LTask m.n_id]
+  | 1 -> [LElectionRun m.n_id]
+  | 2 -> [LCommit m.n_id]
+  | 3 -> [LApply m.n_id]
+  | _ -> [LRo m.n_id]
+
+(* choose : node -> enabled classes -> (class, task index) *)
+let rec settle_by (choose : node -> int list -> int * int) (fuel : int) (w : world) : world =
+  if fuel = 0 then w else
+  match List.find_opt (fun m -> enabled_classes m <> []) w.w_nodes with
+  | None -> w
+  | Some m ->
+      let (cls, task) = choose m (enabled_classes m) in
+      settle_by choose (fuel - 1) (List.fold_left step w (class_labels m cls task))
+
+let rec perms = function
+  | [] -> [[]]
+  | l -> List.concat_map (fun x -> List.map (fun p -> x :: p) (perms (List.filter (fun y -> y <> x) l))) l
+
+let by_priority (prio : int list) (lifo : bool) : node -> int list -> int * int = fun m en ->
+  let cls = List.find (fun c -> List.mem c en) prio in
+  (cls, if cls = 0 && lifo then List.length m.n_tasks - 1 else 0)
+
+let by_random (seed : int) : node -> int list -> int * int =
+  let st = Random.State.make [| seed |] in
+  fun m en ->
+    let cls = List.nth en (Random.State.int st (List.length en)) in
+    (cls, if cls = 0 then Random.State.int st (List.length m.n_tasks) else 0)
+
+let alternative_schedules : (node -> int list -> int * int) list Lazy.t = lazy (
+  List.concat_map (fun p -> [by_priority p false; by_priority p true]) (perms [0; 1; 2; 3; 4])
+  @ List.init 300 (fun i -> by_random (i + 1)))
 
 let compare_obs (ts : tstate) (m : mon) (o : obs) =
   (* An InstallSnapshot handler parked in applyCond.Wait resumes when a broadcast finds its wait
@@ -398,8 +521,10 @@ let compare_obs (ts : tstate) (m : mon) (o : obs) =
   let bad what detail =
     if not ts.diverged then begin
       ts.diverged <- true;
-      incr mismatches;
-      say (Printf.sprintf "MISMATCH trace=%s step=%d label=%s what=%s %s" m.tname m.step m.label what detail)
+      if not ts.quiet then begin
+        incr mismatches;
+        say (Printf.sprintf "MISMATCH trace=%s step=%d label=%s what=%s %s" m.tname m.step m.label what detail)
+      end
     end in
   (* nodes *)
   List.iter (fun (id, s) ->
@@ -446,6 +571,25 @@ let compare_obs (ts : tstate) (m : mon) (o : obs) =
   (* outcome *)
   List.iter (fun mn -> if mn.n_out <> Model.Ok then bad (Printf.sprintf "node %s" (ns mn.n_id)) "model predicts a fatal error or panic here") w.w_nodes
 
+let matches (ts : tstate) (m : mon) (o : obs) (w : world) : bool =
+  let t' = { ts with w; cmap = Hashtbl.copy ts.cmap; diverged = false; quiet = true } in
+  compare_obs t' m o;
+  not t'.diverged
+
+let compare_obs_any_schedule (ts : tstate) (m : mon) (o : obs) =
+  (match ts.prev with
+   | Some (w0, l) when not (matches ts m o ts.w) ->
+       let w1 = step w0 l in
+       let rec go = function
+         | [] -> ()
+         | sch :: rest ->
+             incr schedules_tried;
+             let w' = settle_by sch 400 w1 in
+             if matches ts m o w' then (ts.w <- w'; incr schedules_needed) else go rest in
+       go (Lazy.force alternative_schedules)
+   | _ -> ());
+  compare_obs ts m o
+
 let run_trace_file (path : string) =
   let ic = open_in path in
   let ts = ref None and mon = ref None and cur = ref None in
@@ -455,7 +599,7 @@ let run_trace_file (path : string) =
      | Some t, Some m, Some o ->
          monitor_obs m o;
          if !tail_seen then (monitor_tail m o; tail_seen := false);
-         if not t.diverged then compare_obs t m o
+         if not t.diverged then compare_obs_any_schedule t m o
      | _ -> ());
     cur := None in
   let finish () =
@@ -476,7 +620,7 @@ let run_trace_file (path : string) =
            let ids = List.map n_of_s (String.split_on_char ',' (List.assoc "ids" k)) in
            let boot = List.map n_of_s (String.split_on_char ',' (List.assoc "boot" k)) in
            let w = init_world ids boot (n_of_s (List.assoc "et" k)) (n_of_s (List.assoc "ld" k)) in
-           ts := Some { w; cmap = Hashtbl.create 64; seen_results = []; waiting = []; diverged = false };
+           ts := Some { w; cmap = Hashtbl.create 64; seen_results = []; waiting = []; diverged = false; prev = None; quiet = false };
            mon := Some { tname = Printf.sprintf "%s#%d(%s)" (Filename.basename path) !traces (List.assoc "family" k);
                          step = 0; label = "INIT"; leaders = Hashtbl.create 8; applied = Hashtbl.create 32;
                          committed = Hashtbl.create 32; terms = Hashtbl.create 8; votes = Hashtbl.create 16;
@@ -492,11 +636,16 @@ let run_trace_file (path : string) =
                 (match rest with
                  | "SUBMIT" :: node :: ty :: p :: _ ->
                      Hashtbl.replace m.submitted m.nfid (node, int_of_string ty, int_of_string p, m.step); m.nfid <- m.nfid + 1
-                 | ("ADD" | "REMOVE") :: _ -> m.nfid <- m.nfid + 1; m.static_membership <- false
+                 | "ADD" :: _ :: id :: v :: _ ->
+                     Hashtbl.replace m.votes (Printf.sprintf "confreq/%d" m.nfid) ("ADD " ^ id ^ " " ^ v);
+                     m.nfid <- m.nfid + 1; m.static_membership <- false
+                 | "REMOVE" :: _ :: id :: _ ->
+                     Hashtbl.replace m.votes (Printf.sprintf "confreq/%d" m.nfid) ("REMOVE " ^ id);
+                     m.nfid <- m.nfid + 1; m.static_membership <- false
                  | _ -> ());
                 if label <> "INIT" && not t.diverged then
                   (match parse_label t.w t.cmap label with
-                   | Some l -> t.w <- macro t.w l
+                   | Some l -> t.prev <- Some (t.w, l); t.w <- macro t.w l
                    | None ->
                        t.diverged <- true; incr mismatches;
                        say (Printf.sprintf "MISMATCH trace=%s step=%s label=%s what=label the model has no call with that id" m.tname i label))
@@ -520,6 +669,7 @@ let run_trace_file (path : string) =
 let run_traces (files : string list) =
   List.iter run_trace_file files;
   List.iter print_endline (List.rev !out_lines);
+  Printf.printf "SCHEDULES steps-needing-another-goroutine-order=%d orders-tried=%d\n" !schedules_needed !schedules_tried;
   Printf.printf "TRACES traces=%d steps=%d mismatches=%d\n" !traces !steps !mismatches
 
 (* ---------- handler-level cases (HSEQ) ---------- *)
